@@ -63,6 +63,13 @@ EXTREME = [
     "min sum(i in 0..1000001) { 1 }\ns.t.\n    1 >= 1",
     "min 99999999999999999999999999999999999999 * x\ns.t.\n    x >= 0.00000000000000000000000000000000000001\ndefine\n    x as Real",
     "min avg { }\ns.t.\n    min { } >= 1",
+    "min sum(i in lo..hi) { i }\ns.t.\n    1 >= 1\nwhere\n    let lo = -9223372036854775807\n    let hi = 9223372036854775807",
+    "min 1\ns.t.\n    x_i >= 0 for i in -9223372036854775807..9223372036854775807\ndefine\n    x_i as Boolean for i in 0..2",
+    "min 1\ns.t.\n    1 >= 1\ndefine\n    x_i as Boolean for i in 0..=9223372036854775807",
+    "min sum(i in -9223372036854775807..=0) { 1 }\ns.t.\n    1 >= 1",
+    "min sum(i in 9223372036854775806..9223372036854775807) { x_i }\ns.t.\n    1 >= 1\ndefine\n    x_i as Boolean for i in 9223372036854775806..9223372036854775807",
+    "min a[9223372036854775807 + 0]\ns.t.\n    1 >= 1\nwhere\n    let a = [1, 2]",
+    "min len(a) - 9223372036854775807 - 9223372036854775807\ns.t.\n    1 >= 1\nwhere\n    let a = [1, 2]",
 ]
 
 
